@@ -182,6 +182,7 @@ SHARED_OK = {
     ("claripy/backends/backend_vsa/discrete_strided_interval_set.py", "dsis_id_ctr"): "itertools.count",
     ("claripy/backends/backend_z3.py", "ALL_Z3_CONTEXTS"): "WeakSet of contexts, only added to; read by the SIGINT handler",
     ("claripy/backends/backend_z3.py", "_gc_lock"): "the lock of the GC guard (C19)",
+    ("claripy/ast/base.py", "_hash_cache_lock"): "the lock under which a new AST is filed in the hash-cons table (C06.bypass): a lock is what threads are meant to share",
     ("claripy/backends/backend_vsa/strided_interval.py", "si_id_ctr"): "itertools.count",
     ("claripy/backends/backend_vsa/valueset.py", "vs_id_ctr"): "itertools.count",
 }
